@@ -6,7 +6,7 @@
    projection encoder and decoded with opus_projection_decode() and opus_projection_decode_float(); where the float output
    exceeds +-1 the 16-bit output must read +-32767 (saturate) but shows the opposite sign.
    Part 2: a caller-supplied demixing matrix (all coefficients 0.75) on a half-scale signal.
-   Build: gcc Fproj16_projection_wrap.c -Iinclude libopus.a -lm && ./a.out     (exit status 1 = wrapped samples found) */
+   Build: gcc F14_c13_projection_decode_wraps.c -Iinclude libopus.a -lm && ./a.out     (exit status 1 = wrapped samples found) */
 #include <stdio.h>
 #include <stdlib.h>
 #include <string.h>
